@@ -14,7 +14,7 @@
 EXTENDS SasLexer
 
 TokCoreM(t) == <<t.ty, t.ch, t.c, t.pk, t.ps, t.pe>>
-ErrCoreM(e) == <<e.k, e.c>>
+ErrCoreM(e) == <<e.k, e.c, e.lt>>
 
 \* the fields in which the model state S1 (reached from S by one step) differs from event e
 StepDiffs(S, S1, e) ==
@@ -38,7 +38,7 @@ StepDiffs(S, S1, e) ==
   (IF Len(S1.lines) = e.la /\ (e.la >= 1 => S1.lines[e.la] = (IF e.lt = <<>> THEN S1.lines[e.la] ELSE e.lt[Len(e.lt)][2]))
      THEN {} ELSE {"lines"}) \cup
   (IF /\ Len(S1.errs) = e.eb + Len(e.ne)
-      /\ \A j \in 1..Len(e.ne) : ErrCoreM(S1.errs[e.eb + j]) = <<e.ne[j].k, e.ne[j].c>>
+      /\ \A j \in 1..Len(e.ne) : ErrCoreM(S1.errs[e.eb + j]) = <<e.ne[j].k, e.ne[j].c, e.ne[j].lt>>
      THEN {} ELSE {"errors"}) \cup
   (IF S1.nlit = e.nl THEN {} ELSE {"literal-buffer"}) \cup
   (IF (S1.fault = "") THEN {} ELSE {"model-fault:" \o S1.fault})
@@ -57,7 +57,7 @@ Adopt(S, e) ==
                                               pk |-> e.tt[j].pk, ps |-> e.tt[j].ps, pe |-> e.tt[j].pe]],
         !.lines = SubSeq(S.lines, 1, IF lkeep < Len(S.lines) THEN lkeep ELSE Len(S.lines))
                   \o [j \in 1..Len(e.lt) |-> e.lt[j][2]],
-        !.errs = S.errs \o [j \in 1..Len(e.ne) |-> [k |-> e.ne[j].k, c |-> e.ne[j].c]]]
+        !.errs = S.errs \o [j \in 1..Len(e.ne) |-> [k |-> e.ne[j].k, c |-> e.ne[j].c, lt |-> e.ne[j].lt]]]
 
 ModelStep(S, T, e) ==
   CASE e.ph = "L" -> Step(S, T)
@@ -87,4 +87,43 @@ ConfLoop(r, T, S, i, acc) ==
 CONF_drift(r) ==
   IF ~r.ok \/ r.events = <<>> THEN {}
   ELSE ConfLoop(r, [cs |-> r.cs, cc |-> r.cc, cw |-> r.cw], InitState(r.bom), 1, {})
+
+\* ---- the model's own result on the text of a record (no events needed) ----------------------
+\* Used to evaluate property clauses on the *model* (design level) for inputs generated elsewhere
+\* (Gen derivations, exhaustive open-code families) and to compare final results without events.
+RECURSIVE RunToEof(_, _, _)
+RunToEof(S, T, fuel) ==
+  IF fuel = 0 THEN Fault(S, "OutOfFuel")
+  ELSE IF Eof(T, S.pos) THEN S ELSE RunToEof(Step(S, T), T, fuel - 1)
+LastTy(S) == IF S.toks = <<>> THEN "None" ELSE S.toks[Len(S.toks)].ty
+ModelRec(r) ==
+  LET T == [cs |-> r.cs, cc |-> r.cc, cw |-> r.cw]
+      fuel == 4 * Len(r.cs) + 64
+      E == RunToEof(InitState(r.bom), T, fuel)
+      F == RunLex(E, T, fuel)
+      n == Len(F.toks)
+      endc(i) == IF i < n THEN F.toks[i+1].c ELSE F.toks[i].c
+      tk(i) == [i |-> i - 1, ty |-> F.toks[i].ty, ch |-> F.toks[i].ch,
+                c |-> F.toks[i].c, ec |-> endc(i), b |-> r.cb[F.toks[i].c + 1], eb |-> r.cb[endc(i) + 1],
+                pk |-> F.toks[i].pk, ps |-> F.toks[i].ps, pe |-> F.toks[i].pe]
+  IN [id |-> r.id, ok |-> F.fault = "", budget_exceeded |-> FALSE, mfault |-> F.fault,
+      cs |-> r.cs, cc |-> r.cc, cw |-> r.cw, cb |-> r.cb, bom |-> r.bom, len |-> r.len,
+      toks |-> [i \in 1..n |-> tk(i)],
+      errs |-> [i \in 1..Len(F.errs) |-> [k |-> F.errs[i].k, c |-> F.errs[i].c, b |-> r.cb[F.errs[i].c + 1], lt |-> F.errs[i].lt]],
+      at_eof |-> [modes |-> E.modes, ck |-> [set |-> E.ck.set], nest |-> E.nest,
+                  pend |-> E.pend, lt |-> LastTy(E)],
+      litlen |-> F.nlit]
+\* final results of model and implementation agree (tokens: type, channel, start, payload kind and range; errors: kind, position)
+M_same_toks(r) ==
+  LET m == ModelRec(r) IN
+  IF Len(m.toks) # Len(r.toks) THEN {0 - 1}
+  ELSE {i \in 1..Len(r.toks) :
+          \/ m.toks[i].ty # r.toks[i].ty \/ m.toks[i].ch # r.toks[i].ch \/ m.toks[i].c # r.toks[i].c
+          \/ m.toks[i].pk # r.toks[i].pk
+          \/ (r.toks[i].pk = "s" /\ (m.toks[i].ps # r.toks[i].ps \/ m.toks[i].pe # r.toks[i].pe))}
+M_same_errs(r) ==
+  LET m == ModelRec(r) IN
+  IF Len(m.errs) # Len(r.errs) THEN {0 - 1}
+  ELSE {i \in 1..Len(r.errs) : m.errs[i].k # r.errs[i].k \/ m.errs[i].c # r.errs[i].c \/ m.errs[i].lt # r.errs[i].lt}
+M_fault(r) == LET m == ModelRec(r) IN IF m.mfault = "" THEN {} ELSE {m.mfault}
 =============================================================================
